@@ -575,7 +575,7 @@ func TestProp(t *testing.T) {
 		r.Count(nt, labels...)
 		r.Sample(c.Kind+"/"+c.T.Kind+"/"+outcome, c)
 		if rt != nil {
-			if v.OK && c.Kind != "e2e" {
+			if v.OK && c.Kind != "e2e" && c.Kind != "basic" {
 				pool.Add(check, c)
 			}
 			if r.Judge(check, c, v) {
